@@ -1,0 +1,75 @@
+//go:build verif
+
+package harfbuzz
+
+// Hooks for the verification harness (property C18, Arabic joining as a window-local pass): the
+// real applyArabicJoining on a real Buffer whose Info holds code points with the unicode
+// properties the shaper computes (setUnicodeProps), with a pre- and a post-context.
+// Nothing here changes behaviour; the file is only compiled with -tags verif.
+
+// VerifArabGlyph is what applyArabicJoining reads and writes of a GlyphInfo.
+type VerifArabGlyph struct {
+	Codepoint rune
+	Cluster   int
+	Mask      uint32
+	Action    uint8 // complexAux (the arabic shaping action) - input: the value before the call
+}
+
+// VerifArabBuf is the buffer state the joining model talks about.
+type VerifArabBuf struct {
+	Glyphs        []VerifArabGlyph
+	Level         ClusterLevel
+	Flags         ShappingOptions
+	HasGlyphFlags bool
+	PreContext    []rune // buffer.context[0]: nearest code point first
+	PostContext   []rune // buffer.context[1]: nearest code point first
+}
+
+// VerifArabicJoiningType is getJoiningType with the general category the shaper would use.
+func VerifArabicJoiningType(u rune) uint8 {
+	return getJoiningType(u, uni.generalCategory(u))
+}
+
+// VerifArabicStateTable dumps arabicStateTable: per state, per column (prevAction, currAction, nextState).
+func VerifArabicStateTable() [][][3]int {
+	out := make([][][3]int, len(arabicStateTable))
+	for s := range arabicStateTable {
+		for _, e := range arabicStateTable[s] {
+			out[s] = append(out[s], [3]int{int(e.prevAction), int(e.currAction), int(e.nextState)})
+		}
+	}
+	return out
+}
+
+// VerifArabicJoining runs applyArabicJoining on a buffer built from `in`.
+func VerifArabicJoining(in VerifArabBuf) (out VerifArabBuf, panicMsg string) {
+	defer verifRecover(&panicMsg)
+	b := NewBuffer()
+	b.Info = make([]GlyphInfo, len(in.Glyphs))
+	b.Pos = make([]GlyphPosition, len(in.Glyphs))
+	b.ClusterLevel = in.Level
+	b.Flags = in.Flags
+	b.Props.Direction = RightToLeft
+	for i, g := range in.Glyphs {
+		b.Info[i] = GlyphInfo{codepoint: g.Codepoint, Glyph: GID(g.Codepoint), Cluster: g.Cluster, Mask: g.Mask, complexAux: g.Action}
+		b.Info[i].setUnicodeProps(b)
+	}
+	b.scratchFlags = 0
+	if in.HasGlyphFlags {
+		b.scratchFlags |= bsfHasGlyphFlags
+	}
+	b.maxOps = max(len(b.Info)*1024, 16384)
+	b.maxLen = max(len(b.Info)*64, 16384)
+	b.context[0] = append([]rune(nil), in.PreContext...)
+	b.context[1] = append([]rune(nil), in.PostContext...)
+
+	applyArabicJoining(b)
+
+	out = VerifArabBuf{Level: b.ClusterLevel, Flags: b.Flags, HasGlyphFlags: b.scratchFlags&bsfHasGlyphFlags != 0,
+		PreContext: in.PreContext, PostContext: in.PostContext}
+	out.Glyphs = make([]VerifArabGlyph, len(b.Info))
+	for i, g := range b.Info {
+		out.Glyphs[i] = VerifArabGlyph{Codepoint: g.codepoint, Cluster: g.Cluster, Mask: g.Mask, Action: g.complexAux}
+	}
+	return out, ""
+}
